@@ -1,7 +1,7 @@
 """psv.props — which rules decide which property."""
 from . import core
 from .report import Check
-from .rules import cw, ed, mt, ts, vg, pm, ax, kb, dp, sg, uw, sm, fs, tc, ge, nl, sp, gw, rt, st
+from .rules import cw, ed, mt, ts, vg, pm, ax, kb, dp, sg, uw, sm, fs, tc, ge, nl, sp, gw, rt, st, nb
 from . import selftest
 import functools
 import inspect
@@ -201,6 +201,8 @@ def c20(tier):
     # release sizes of the key store; the stacking constructor's coefficient interleave
     ax.km7(P, C)
     st.fc2(P, C)
+    # no counting loop over an array of N entries runs to N inclusive
+    nb.nb1(P, C, 'all')
     return C.finish()
 
 
@@ -230,6 +232,8 @@ def c13(tier):
     sp.mm1(P, C)
     # a scalar argument is broadcast by its own length, never by another argument's (a one-element list indexed by the dimension)
     gw.gw1(P, C)
+    # no counting loop over an array of N entries runs to N inclusive
+    nb.nb1(P, C, 'fit')
     return C.finish()
 
 
@@ -272,6 +276,8 @@ def c07(tier):
     kb.kb3(P, C)
     # the rows of the extents block are set up before the fallback for files without EXTENTS writes through them
     nl.nl4(P, C)
+    # no counting loop over an array of N entries runs to N inclusive
+    nb.nb1(P, C, 'reader')
     return C.finish()
 
 
@@ -299,6 +305,8 @@ def c15(tier):
     selftest.run(P, C, ('re1',))
     dp.re1(P, C)
     fs.fs15(P, C)
+    # no counting loop over an array of N entries runs to N inclusive
+    nb.nb1(P, C, 'permute')
     return C.finish()
 
 
@@ -358,6 +366,8 @@ def c05(tier):
     kb.sc123(P, C)      # the centre range (clamps, adjustment, search interval) is what keeps the coefficient walk in bounds
     C.extra["vla_declarators"] = n
     C.extra["units"] = sorted(P.units.keys())
+    # no counting loop over an array of N entries runs to N inclusive
+    nb.nb1(P, C, 'evaluation')
     return C.finish()
 
 
@@ -559,6 +569,8 @@ def c14(tier):
     # the operation is a function of its arguments and the table: no scratch kept between calls (two threads, two tables)
     selftest.run(P, C, ('re1',))
     dp.re1(P, C)
+    # no counting loop over an array of N entries runs to N inclusive
+    nb.nb1(P, C, 'convolve')
     return C.finish()
 
 
@@ -668,6 +680,8 @@ def c17(tier):
     # the operation is a function of its arguments and the table: no scratch kept between calls (two threads, two tables)
     selftest.run(P, C, ('re1',))
     dp.re1(P, C)
+    # no counting loop over an array of N entries runs to N inclusive
+    nb.nb1(P, C, 'grideval')
     return C.finish()
 
 
